@@ -177,11 +177,12 @@ def _explore(arg):
         ks = sorted({1, inside[len(inside) // 2] if inside else 1, after})
         jstep = 3
         if thorough and q == base['query']:
-            ks = sorted(set(range(1, n_d + 1, 2)) | {after})
-            jstep = 3
+            ks = sorted(set(range(1, n_d + 1, 5)) | {after, max(1, after - 1), min(n_d, after + 1)})
+            jstep = 4
         for k in ks:
             # a decider already past its load step repairs nothing: that is where a narrow window shows, so every line j
-            for j in range(1, n_r + 1, 1 if (k == after and q == base['query']) else jstep):
+            big = 2 if (n_r > 1000 and not thorough) else 1        # the one long scenario (five rules to parse): every other line
+            for j in range(1, n_r + 1, big * (1 if (k == after and q == base['query']) else jstep)):
                 segs = [(0, k), (1, j), (0, None), (1, None)]
                 outs, old, new, final, counts, pauses = one(sc, segs, late_edit=True)
                 dpos = 'in_load' if 'load_rules' in stacks[k - 1] else ('after_load' if k >= after else 'before_load')
